@@ -1,7 +1,7 @@
 (* CheckArray.v -- flattening of model states and comparison with observations of the
    implementation (tie K for the Array model). No proofs. *)
 From Coq Require Import ZArith List Bool.
-From Darr Require Import Base ArrayModel.
+From Darr Require Import Base ArrayModel Codec.
 Import ListNotations.
 Open Scope Z_scope.
 
@@ -69,3 +69,18 @@ Definition dbg_history (c : res world) (ops : list aop) : list (Z * list Z) :=
 
 Definition created (s : source) (cl : option Z) (m : mode) (meta : bool) : res world :=
   match asarray_m s cl m meta with Ok (h, d) => Ok (h, d) | Err e => Err e end.
+
+(* C02: the independent reader applied to the observed files must give what the API
+   reported (dtype, shape, canonical element bytes) *)
+Definition chk_decode (d : adir) (nt bo : Z) (shape canon : list Z) : bool :=
+  match decode_dir d with
+  | Some (t, b, _, sh, elems) =>
+      (numtype_code t =? nt) && (byteorder_code b =? bo) && zlist_eqb sh shape
+      && zlist_eqb (concat elems) canon
+  | None => false
+  end.
+Definition dbg_decode (d : adir) : list Z :=
+  match decode_dir d with
+  | Some (t, b, _, sh, elems) => [numtype_code t; byteorder_code b; zlen sh] ++ sh ++ concat elems
+  | None => [-1]
+  end.
